@@ -264,7 +264,7 @@ func mutate(rt *rapid.T, data []byte, maxLen int) ([]byte, mutation) {
 		out = append(out, data[n.Start+hl:]...)
 		return out
 	}
-	kind := rapid.IntRange(0, 11).Draw(rt, "mutKind")
+	kind := rapid.IntRange(0, 13).Draw(rt, "mutKind")
 	if nodes == nil && kind < 9 {
 		kind = 9 + kind%3
 	}
@@ -458,6 +458,19 @@ func mutate(rt *rapid.T, data []byte, maxLen int) ([]byte, mutation) {
 		out := append([]byte(nil), data[:p]...)
 		out = append(out, ins...)
 		return clipTo(append(out, data[p:]...), maxLen), mutation{"insert", fmt.Sprintf("%x inserted at %d", ins, p)}
+	case 12, 13: // a map key of a drawn kind: replace a key, or turn a node into {key: node}
+		if nodes == nil {
+			break
+		}
+		key, kname := genMapKey(rt)
+		if m := pick(func(n *xcbor.Node) bool { return n.Kind == xcbor.Map && len(n.Items) >= 2 }); m != nil && rapid.IntRange(0, 2).Draw(rt, "replaceKey") != 0 {
+			i := 2 * rapid.IntRange(0, len(m.Items)/2-1).Draw(rt, "pair")
+			return clipTo(splice(m.Items[i], key.Encode()), maxLen), mutation{"mapkey", fmt.Sprintf("key %d of map at %d -> %s", i/2, m.Start, kname)}
+		}
+		n := pick(nil)
+		repl := append([]byte{0xa1}, key.Encode()...)
+		repl = append(repl, data[n.Start:n.End]...)
+		return clipTo(splice(n, repl), maxLen), mutation{"mapkey", fmt.Sprintf("%s at %d -> {%s: it}", n.Kind, n.Start, kname)}
 	default: // random cut anywhere
 		if len(data) == 0 {
 			break
@@ -553,4 +566,145 @@ func hostileConstants(big int) []struct {
 	out = append(out, hc{"single-break", []byte{0xff}})
 	out = append(out, hc{"reserved-ai-28", []byte{0x1c}})
 	return out
+}
+
+// ---- map keys of every kind -------------------------------------------------------
+
+type namedNode struct {
+	Name string
+	Node *xcbor.Node
+}
+
+func f64node(bits uint64) *xcbor.Node { return &xcbor.Node{Kind: xcbor.Simple, Arg: bits, Width: 8} }
+
+// mapKeyKinds lists one or more representatives of every kind of CBOR item that
+// can stand in key position: integers, strings (definite and chunked), arrays,
+// maps, floats, simple values, bignums, tags the library registers or treats as
+// constructors, and tags it does not know around each of those (also nested).
+func mapKeyKinds() []namedNode {
+	b2 := []byte{1, 2}
+	ib := xcbor.B(b2)
+	ib.Apply(xcbor.FormIndef, 1)
+	it := xcbor.T("ab")
+	it.Apply(xcbor.FormIndef, 1)
+	base := []namedNode{
+		{"uint0", xcbor.U(0)}, {"uint24", xcbor.U(24)}, {"uint-max", xcbor.U(1<<64 - 1)},
+		{"nint1", xcbor.I(-1)}, {"nint-max", xcbor.NegArg(1<<64 - 1)},
+		{"text", xcbor.T("a")}, {"text-empty", xcbor.T("")}, {"text-chunked", it},
+		{"bytes", xcbor.B(b2)}, {"bytes-empty", xcbor.B([]byte{})}, {"bytes-chunked", ib},
+		{"array-empty", xcbor.A()}, {"array", xcbor.A(xcbor.U(1))}, {"array-nested", xcbor.A(xcbor.A(xcbor.U(1)))}, {"array-indef", xcbor.AI(xcbor.U(1))},
+		{"map-empty", xcbor.M()}, {"map", xcbor.M(xcbor.U(1), xcbor.U(2))}, {"map-with-array-key", xcbor.M(xcbor.A(xcbor.U(1)), xcbor.U(2))},
+		{"false", xcbor.Bool(false)}, {"true", xcbor.Bool(true)}, {"null", xcbor.Null()},
+		{"undefined", &xcbor.Node{Kind: xcbor.Simple, Arg: 23}}, {"simple16", &xcbor.Node{Kind: xcbor.Simple, Arg: 16}},
+		{"simple255", &xcbor.Node{Kind: xcbor.Simple, Arg: 255, Width: 1}},
+		{"float16-1.0", &xcbor.Node{Kind: xcbor.Simple, Arg: 0x3c00, Width: 2}}, {"float16-nan", &xcbor.Node{Kind: xcbor.Simple, Arg: 0x7e00, Width: 2}},
+		{"float32", &xcbor.Node{Kind: xcbor.Simple, Arg: 0x40490fdb, Width: 4}}, {"float64", f64node(0x400921fb54442d18)}, {"float64-inf", f64node(0x7ff0000000000000)},
+		{"bignum", xcbor.Tg(2, xcbor.B([]byte{1, 0, 0, 0, 0, 0, 0, 0, 0}))}, {"bignum-small", xcbor.Tg(2, xcbor.B([]byte{5}))},
+		{"neg-bignum", xcbor.Tg(3, xcbor.B([]byte{1, 0, 0, 0, 0, 0, 0, 0, 0}))}, {"bignum-of-array", xcbor.Tg(2, xcbor.A(xcbor.U(1)))},
+		{"tag24-bytes", xcbor.Tg(24, xcbor.B([]byte{0x01}))}, {"tag24-array", xcbor.Tg(24, xcbor.A(xcbor.U(1)))},
+		{"tag30-rat", xcbor.Tg(30, xcbor.A(xcbor.U(1), xcbor.U(2)))}, {"tag30-bad", xcbor.Tg(30, xcbor.B(b2))},
+		{"tag258-set", xcbor.Tg(258, xcbor.A(xcbor.U(1)))}, {"tag259-map", xcbor.Tg(259, xcbor.M(xcbor.U(1), xcbor.U(2)))},
+		{"tag121-constr", xcbor.Tg(121, xcbor.A())}, {"tag122-constr", xcbor.Tg(122, xcbor.A(xcbor.U(1), xcbor.B(b2)))},
+		{"tag127-constr", xcbor.Tg(127, xcbor.AI(xcbor.U(1)))}, {"tag1280-constr", xcbor.Tg(1280, xcbor.A(xcbor.U(1)))},
+		{"tag1400-constr", xcbor.Tg(1400, xcbor.A())}, {"tag101", xcbor.Tg(101, xcbor.A(xcbor.U(1)))},
+		{"tag102-constr", xcbor.Tg(102, xcbor.A(xcbor.U(7), xcbor.A(xcbor.U(1))))}, {"tag121-of-uint", xcbor.Tg(121, xcbor.U(1))},
+		{"tag0-time", xcbor.Tg(0, xcbor.T("2020-01-01T00:00:00Z"))}, {"tag1-epoch", xcbor.Tg(1, xcbor.U(1))},
+	}
+	out := append([]namedNode(nil), base...)
+	// tags the library does not register, around every kind of content
+	contents := []namedNode{
+		{"uint", xcbor.U(1)}, {"nint", xcbor.I(-2)}, {"text", xcbor.T("a")}, {"bytes", xcbor.B(b2)}, {"bytes-chunked", ib},
+		{"array", xcbor.A(xcbor.U(1))}, {"array-empty", xcbor.A()}, {"array-indef", xcbor.AI(xcbor.U(1))},
+		{"map", xcbor.M(xcbor.U(1), xcbor.U(2))}, {"map-empty", xcbor.M()},
+		{"bool", xcbor.Bool(true)}, {"null", xcbor.Null()}, {"float", f64node(0x3ff8000000000000)},
+		{"bignum", xcbor.Tg(2, xcbor.B([]byte{1, 0, 0, 0, 0, 0, 0, 0, 0}))}, {"constr", xcbor.Tg(121, xcbor.A(xcbor.U(1)))}, {"set", xcbor.Tg(258, xcbor.A(xcbor.U(1)))},
+	}
+	for _, c := range contents {
+		out = append(out, namedNode{"tag99(" + c.Name + ")", xcbor.Tg(99, c.Node.Clone())})
+	}
+	for _, tn := range []uint64{6, 23, 55799, 1 << 32, 1<<64 - 1} {
+		out = append(out, namedNode{fmt.Sprintf("tag%d(array)", tn), xcbor.Tg(tn, xcbor.A(xcbor.U(1)))})
+		out = append(out, namedNode{fmt.Sprintf("tag%d(bytes)", tn), xcbor.Tg(tn, xcbor.B(b2))})
+	}
+	// nested unknown tags, unknown inside known and known inside unknown
+	out = append(out,
+		namedNode{"tag99(tag99(array))", xcbor.Tg(99, xcbor.Tg(99, xcbor.A(xcbor.U(1))))},
+		namedNode{"tag99(tag1000(bytes))", xcbor.Tg(99, xcbor.Tg(1000, xcbor.B(b2)))},
+		namedNode{"tag99(tag1000(tag6(map)))", xcbor.Tg(99, xcbor.Tg(1000, xcbor.Tg(6, xcbor.M(xcbor.U(1), xcbor.U(2)))))},
+		namedNode{"tag99(tag99(uint))", xcbor.Tg(99, xcbor.Tg(99, xcbor.U(1)))},
+		namedNode{"constr-of-tag99(array)", xcbor.Tg(121, xcbor.A(xcbor.Tg(99, xcbor.A(xcbor.U(1)))))},
+		namedNode{"set-of-tag99(bytes)", xcbor.Tg(258, xcbor.A(xcbor.Tg(99, xcbor.B(b2))))},
+		namedNode{"array-of-tag99(array)", xcbor.A(xcbor.Tg(99, xcbor.A(xcbor.U(1))))},
+		namedNode{"map-with-tag99(array)-key", xcbor.M(xcbor.Tg(99, xcbor.A(xcbor.U(1))), xcbor.U(2))},
+	)
+	return out
+}
+
+// mapKeyPositions puts a map {key: 2} into every container position through
+// which the generic decoders reach a map.
+func mapKeyPositions(key *xcbor.Node) []namedNode {
+	m := func() *xcbor.Node { return xcbor.M(key.Clone(), xcbor.U(2)) }
+	nonMinimalID := &xcbor.Node{Kind: xcbor.Uint, Arg: 0, Width: 1} // 18 00: misses the DecodeIdFromList fast path
+	longHead := xcbor.A(xcbor.U(0), m())
+	longHead.Width = 1 // 98 02 ...: long array header, same reason
+	indef := m()
+	indef.Indef = true
+	return []namedNode{
+		{"top-level-map", m()},
+		{"map-in-array", xcbor.A(m())},
+		{"map-as-map-value", xcbor.M(xcbor.U(0), m())},
+		{"map-in-tag24-bytes", xcbor.Tg(24, xcbor.B(m().Encode()))},
+		{"second-key", xcbor.M(xcbor.U(1), xcbor.U(1), key.Clone(), xcbor.U(2))},
+		{"same-key-twice", xcbor.M(key.Clone(), xcbor.U(1), key.Clone(), xcbor.U(2))},
+		{"indefinite-map", indef},
+		{"map-in-unknown-tag", xcbor.Tg(99, m())},
+		{"map-in-constr", xcbor.Tg(121, xcbor.A(m()))},
+		{"idlist-nonminimal-id", xcbor.A(nonMinimalID, m(), xcbor.U(0))},
+		{"idlist-long-head", longHead},
+		{"idlist-in-list", xcbor.A(xcbor.U(1), xcbor.A(xcbor.A(nonMinimalID, m(), xcbor.U(0))))},
+		{"nested-3-deep", xcbor.A(xcbor.M(xcbor.U(0), xcbor.A(xcbor.A(m()))))},
+	}
+}
+
+// mapKeyConstants: every key kind x every container position.
+func mapKeyConstants() []struct {
+	Name string
+	Data []byte
+} {
+	var out []struct {
+		Name string
+		Data []byte
+	}
+	for _, k := range mapKeyKinds() {
+		for _, p := range mapKeyPositions(k.Node) {
+			out = append(out, struct {
+				Name string
+				Data []byte
+			}{"mapkey:" + k.Name + "@" + p.Name, p.Node.Encode()})
+		}
+	}
+	return out
+}
+
+// genMapKey draws a key: one of the listed kinds, optionally wrapped in up to
+// two further tags (unknown ones most of the time).
+func genMapKey(rt *rapid.T) (*xcbor.Node, string) {
+	ks := mapKeyKindsCached()
+	k := ks[rapid.IntRange(0, len(ks)-1).Draw(rt, "keyKind")]
+	n, name := k.Node.Clone(), k.Name
+	for i := rapid.SampledFrom([]int{0, 0, 0, 1, 1, 2}).Draw(rt, "keyWraps"); i > 0; i-- {
+		tn := rapid.SampledFrom([]uint64{99, 99, 6, 1000, 55799, 24, 121, 258, 2}).Draw(rt, "keyWrapTag")
+		n, name = xcbor.Tg(tn, n), fmt.Sprintf("tag%d(%s)", tn, name)
+	}
+	return n, name
+}
+
+var (
+	mapKeyKindsOnce sync.Once
+	mapKeyKindsVal  []namedNode
+)
+
+func mapKeyKindsCached() []namedNode {
+	mapKeyKindsOnce.Do(func() { mapKeyKindsVal = mapKeyKinds() })
+	return mapKeyKindsVal
 }
